@@ -75,7 +75,7 @@ PROP = dict(
     compare=c16_compare, nontrivial=c16_nontrivial, extra_evidence=c16_extra,
     rule="core/prag: a rejected set (one inconsistency class per case) or an accepted set with at least two matrices, "
          "non-constant entries and at least two queries (asymmetric, multi-profile and/or multi-timestamp); simple: more "
-         "than one entry; euclid/approx: at least two points; distinct = SHA-256 of the canonical case input",
+         "than one entry; euclid/approx: at least two points; distinct = SHA-256 of the canonical case input A third of the pragmatic cases give the last vehicle a required break in the far future, so that the reader wraps the provider into the reserved-time provider.",
     modelled="create_matrix_transport_cost[_with_fallback] (every check, in order), TimeAgnosticMatrixTransportCost and "
              "TimeAwareMatrixTransportCost (grouping, stable sort on the u64-truncated timestamp, bracket search, "
              "interpolation formula, fallback, scale, *_approx at t = 0), SimpleTransportCost, fleet_reader::"
